@@ -36,7 +36,9 @@ MANIFEST = dict(
           "top-level constants/types/fields declared before the first method, locals declared at the top of the body."),
     design="6 C10",
     engines=[dict(name="E-sem", path="harness/src/eng_sem.rs + coq/extract/eng_sem.ml",
-                  kind_free_text="differential: ProjectManager::generate_goto_definitions / generate_completion_proposals on a rendered temp workspace (positional queries) vs the extracted Coq scoping model (abstract queries); answers = ordered (target stem, selection range) lists / sorted label lists")],
+                  kind_free_text="differential: ProjectManager::generate_goto_definitions / generate_completion_proposals on a rendered temp workspace (positional queries) vs the extracted Coq scoping model (abstract queries); answers = ordered (target stem, selection range) lists / sorted label lists"),
+             dict(name="E-annot", path="harness/src/eng_annot.rs + coq/extract/eng_annot.ml",
+                  kind_free_text="two-phase differential: real lexer+parser+AstAnnotator (full and definitions-only mode; root table and every method node's table: for_class_or_module, symbols in iter_symbols order with id / SymbolType / selection_range / range, uses) vs the extracted Coq model Annot.annotate on the dumped tree; C10_tables_from_tree* tie these tables to Scoping.root_table / method_table")],
 )
 
 ASSUMPTIONS = [
@@ -48,6 +50,7 @@ ASSUMPTIONS = [
     "no method name is declared twice in one entity (each procedure/function has one body scope)",
     "inside method m of class C a dotted chain that runs through a strict descendant D of C does not continue with a name that C declares as a method after m (what D's tables see of C at that moment depends on the history of requests: the tables of D are built on demand)",
     "the statement directly after an incomplete line `x.` starts with a keyword (the parser's empty operand extends to the next token, which swallows a cursor placed there)",
+    "tree-level tie (C10_tables_from_tree*, engine annot): the annotated tree is built from get_children_arc while the dump reports get_children_ref (treedump.rs flags a disagreement of the two views with attribute 99; none observed); non-Option struct fields (identifier tokens, name node of a method) are always present in a dumped tree - for other `node` values the model uses range 0; symbol payload other than id / sym_type / selection_range / range (eval_type, type_str, parent) and the parent link of the root table are not part of the tree-level model",
     "HashMap iteration order is not observed: completion labels are compared sorted; definition links are compared in the order returned",
 ]
 
